@@ -583,6 +583,20 @@ _also(r"^(v128a|v128b|v64)\.set_tweaked_key$|^w(128|64)\.set_(tweak|tweaked_key)
 _also(r"^vm\.set_(key|tweak)(\.\w+)?$|^wm\.set_(key|tweak)$", "C02")            # Mantis schedule through the CTR object
 _also(r"^p(128|64|m)\.set_key(\.\w+)?$", "C07")                               # "under one key": the parallel object's key
 _also(r"^w(128|64|m)\.set_(key|tweaked_key)$", "C10")                          # lengths are passed through unchanged
+_also(r"^(v128a|v128b|v64|vm|c128|c64|cm)\.(def_)?(set_counter|set_key|set_tweaked_key|set_tweak)(\.\w+)?$", "C11")   # object state is a function of the arguments only
+_also(r"^(v128a|v128b|v64|vm)\.(increment|eblock)$|^i\.(inc128|inc64|xor128|xor64|xor)$", "C11")
+_also(r"^(v128a|v128b|v64|vm)\.(set_counter|set_key|set_tweaked_key|set_tweak|encrypt)(\.\w+)?$", "C15")   # between init and cleanup every operation must leave the allocation bookkeeping (base_ptr) alone: their frames say so
+_also(r"^p(128|64|m)\.(set_key|encrypt|decrypt|crypt|swap_modes)(\.\w+)?$|^(c128|c64|cm)\.def_set_\w+(\.\w+)?$", "C15")
+
+# Property groups: the properties about the CTR objects (stream C05, back-end independence C06, determinism C11, error contract C14,
+# life cycle C15) are all statements about the same operations' contracts (postcondition + frame); every job on a CTR object's
+# operation is listed under all of them.  Likewise the parallel ECB objects (C07, C03, C11, C14, C15) and the key / tweak
+# set-up of the block ciphers (conformance C01/C02, tweak history C04, key lengths C10, determinism C11, error contract C14).
+_also(r"^(v128a|v128b|v64|vm|c128|c64|cm)\.(def_)?(init|set_counter|set_key|set_tweaked_key|set_tweak|encrypt|increment)(\.\w+)?$", "C05", "C06", "C11", "C14", "C15")
+_also(r"^w(128|64|m)\.\w+$", "C05", "C06", "C11", "C14", "C15")
+_also(r"^p(128|64|m)\.(init|set_key|encrypt|decrypt|crypt|swap_modes)(\.\w+)?$", "C07", "C03", "C11", "C14", "C15")
+_also(r"^(s128|s64)\.(set_key|set_key_inner|set_tweaked_key|set_tweak|set_tk[123]|xor_tk1)(\.\w+)?$", "C01", "C04", "C10", "C11", "C14")
+_also(r"^m\.(set_key|set_tweak|swap_modes)(\.\w+)?$", "C02", "C03", "C10", "C11", "C14")
 
 # C06 is decided as a corollary: every back end meets the SAME stream contracts.  All C05 obligations (generic back end, helpers,
 # SIMD lane increment, set_counter, encrypt) are therefore obligations of C06 as well (round-5 seeded change
